@@ -82,6 +82,15 @@ MUTANTS = [
  ("C23", "T9-existing-target-only-when-verifying", MIG,
   "the target-exists refusal is skipped when Verify is off; needs a file at the target path and Verify=false",
   rep("\tif _, statErr := os.Stat(hydFilePath); !errors.Is(statErr, os.ErrNotExist) {", "\tif _, statErr := os.Stat(hydFilePath); m.config.Verify && !errors.Is(statErr, os.ErrNotExist) {")),
+ ("C23", "T10-close-error-left-to-verification", MIG,
+  "audit5 P6: writeV2File ignores the error of writer.Close() when Verify is on; needs a failing fsync at Close with Verify on: the file reads back fine, the migration succeeds and deletes the V1 folder although the new file was never made durable",
+  rep("\tif err := writer.Close(); err != nil {\n\t\tos.Remove(filePath)", "\tif err := writer.Close(); err != nil && !m.config.Verify {\n\t\tos.Remove(filePath)")),
+ ("C23", "T11-equal-target-compares-keys-only", MIG,
+  "targetEqualsLegacy compares the keys but not the values; needs a target file that has the same keys with a newer value (the V2 engine wrote to it since): the re-run deletes the V1 folder although the two differ",
+  rep(" || !bytes.Equal(data, entry.Data) {", " || !bytes.Equal(data[:0], entry.Data[:0]) {")),
+ ("C23", "T12-close-does-not-fsync", "app/core/hydra/swamp/chronicler/v2/writer.go",
+  "FileWriter.Close skips the fsync; needs the order of system calls: V1 files unlinked before the new file is durable",
+  within("func (fw *FileWriter) Close() error {", "\tif err := fw.file.Sync(); err != nil {\n\t\tfw.file.Close()\n\t\treturn err\n\t}\n", "")),
  ("C23", "T5-dedupe-keeps-first", MIG,
   "loadV1Swamp keeps the first value of a key; needs a chunk that holds a key twice",
   rep("\t\t\tentryMap[entry.Key] = entry\n", "\t\t\tif _, ok := entryMap[entry.Key]; !ok {\n\t\t\t\tentryMap[entry.Key] = entry\n\t\t\t}\n")),
